@@ -80,6 +80,24 @@ CHECKS = {
              "test of the repository).",
         technique="TLA+ spec (Constraint.tla) model-checked exhaustively with TLC; spec->impl replay of every pair",
     ),
+    "C07": dict(
+        category="model_checking",
+        text="Eval.tla is the oracle for `evaluates to completion`: Gen.tla produces programs with NO ill-typed join, "
+             "tracks for every term whether it is hereditarily clean (no hidden error in dead code, boolean operands of "
+             "&& / ||) and emits only clean programs the reference evaluates successfully - operators, tuples/lists/"
+             "selectors incl. calls and copies through tuple fields, copy, select, calls, module instantiation, "
+             "map/filter/reduce over lists, tuples and strings, format, range, casts (exhaustive families + simulation of "
+             "the whole fragment). Agreement of VM.tla with Eval.tla is model-checked on the same programs. Replay: "
+             "FileBuilder::eval_string (no checker) and FileBuilder::build on a file (checker first): when the former "
+             "succeeds the latter must succeed with identical bindings, equal to the specification's values. A rejection "
+             "is keyed by the checker's message class (or by the recorded select-of-mixed-types finding).",
+        design_ref="DESIGN.md §4.1-§4.3, §5/C07, §6",
+        note="Trusted: TLC, vp/render.py, harness eval/build projections. The checker itself is not modelled (Shapes.tla is "
+             "a growth item): the specification decides which programs are in the quantifier and what they evaluate to; "
+             "the property is decided by replay. `mod.pkg` (present only in file builds) is masked.",
+        technique="TLA+ specs (Gen/Eval/VM) model-checked and simulated with TLC as the oracle for the quantifier domain; "
+                  "spec->impl replay (eval_string vs build)",
+    ),
     "C08": dict(
         category="model_checking",
         text="Shell.tla: a POSIX shell's word parser as a character-level state machine, the two escaping helpers and "
@@ -149,6 +167,23 @@ CHECKS = {
              "counted in the evidence, not judged. Key order is not compared.",
         technique="TLA+ spec (DataModel.tla) model-checked with TLC; spec->impl replay of every explored document and of "
                   "the include table; independent encoders and decoders as environment",
+    ),
+    "C18": dict(
+        category="model_checking",
+        text="Eval.tla / VM.tla with a process environment (EnvVars) under both Strict values: env.NAME for set and unset "
+             "names, a tuple field and a selector named env, `let env = ...` (rejected by the parser, modelled as "
+             "ParserRejects). Agreement is model-checked exhaustively over the env families of Gen.tla. Replay: every "
+             "program through FileBuilder::eval_string with the specification's environment plus a planted secret (value / "
+             "failure in strict mode / NULL otherwise, no diagnostic contains the secret, the diagnostic of a lone unset "
+             "read names the variable), and seeded random environments of 0..20 variables (names over [A-Za-z0-9_], values "
+             "arbitrary Unicode) through the `ucg [--no-strict] build` binary under exactly that environment: the artifact "
+             "of `out json {v = env.NAME}` must hold the exact value, an unset name must fail naming the variable (strict) "
+             "or give null, stderr must not contain the secret.",
+        design_ref="DESIGN.md §5/C18",
+        note="Trusted: TLC, vp/render.py, the harness, Python json. Names that are not ucg symbols are selected in quoted "
+             "form. NUL cannot occur in an environment value.",
+        technique="TLA+ specs (Gen/Eval/VM with EnvVars, Strict) model-checked with TLC; spec->impl replay through the "
+                  "library and the ucg binary under controlled environments",
     ),
     "C20": dict(
         category="model_checking",
